@@ -188,6 +188,11 @@ func (s *Store) Delete(ctx context.Context, target ocispec.Descriptor) error {
 		// delete the head of queue
 		danglings, err := s.delete(ctx, head)
 		if err != nil {
+			if !content.Equal(head, target) && errors.Is(err, errdef.ErrNotFound) {
+				// a cascaded node that is known to the graph only by reference
+				// has no blob to remove
+				continue
+			}
 			return err
 		}
 		if s.AutoGC {
